@@ -59,6 +59,7 @@ from .pipe import Pipe, run_driving_pipe, error_to_message
 from .util import DeprecationWarning
 from . import interfaces
 from . import error
+from . import optiontypes
 from .numbers import INTERNAL_SERVER_ERROR, NOT_FOUND, CONTINUE, SHUTDOWN_TIMEOUT
 from .config import TransportParameters
 
@@ -952,7 +953,16 @@ class BlockwiseRequest(BaseUnicastRequest, interfaces.Request):
                 block1.size_exponent,
             )
 
-            if block1.block_number != current_block1.opt.block1.block_number:
+            sent_block1 = current_block1.opt.block1
+            if sent_block1 is None:
+                # The request was sent unfragmented (the server may still send
+                # a Block1 option, eg. as a size hint in a 4.13 response); it
+                # is equivalent to a single final block.
+                sent_block1 = optiontypes.BlockOption.BlockwiseTuple(
+                    0, False, size_exp
+                )
+
+            if block1.block_number != sent_block1.block_number:
                 raise error.UnexpectedBlock1Option("Block number mismatch")
 
             if size_exp == 7:
@@ -964,7 +974,7 @@ class BlockwiseRequest(BaseUnicastRequest, interfaces.Request):
                 block_cursor *= 2
                 size_exp -= 1
 
-            if not current_block1.opt.block1.more:
+            if not sent_block1.more:
                 if block1.more or blockresponse.code == CONTINUE:
                     # treating this as a protocol error -- letting it slip
                     # through would misrepresent the whole operation as an
